@@ -11,7 +11,10 @@ use vp_net::ep::Cb;
 use vp_net::ep::Ep;
 use vp_net::model::Cfg;
 use vp_net::model::Variant;
+use vp_net::model::RANDOM;
+use vp_net::pair::Pair;
 use vp_net::wire;
+use vp_core::serde_json::Value;
 
 /// Script `secure_random` with every sequence over the reserved values and a
 /// valid value (length <= 3, ending in the valid value) and look at the token
@@ -96,10 +99,144 @@ fn reserved_tokens(run: &Arc<Run>) {
     }
 }
 
+/// Token-VALUE sweep (the state exploration only offers a few dozen wrong tokens per state):
+/// on both sides of an online pair, four kinds of datagram (keep-alive, close, a vital chunk
+/// with the expected sequence number, connect) are fed with the agreed token XOR `d` for a
+/// whole family of differences `d`. Every feed must be inert: no event, no reply, no random
+/// draw, and the observable state unchanged.
+fn token_sweep<E: Ep>(run: &Arc<Run>, variant: Variant) {
+    use vp_core::rayon::prelude::*;
+    let v7 = E::V7;
+    let base = Pair::<E>::online(variant);
+    let thorough = run.tier == Tier::Thorough;
+    for side in 0..2usize {
+        let view = base.ep[side].view(base.now);
+        let t = match view.own_token {
+            Some(Some(t)) => t,
+            _ => vp_core::machinery_error("token sweep: online endpoint without a token"),
+        };
+        let o = view.online.as_ref().expect("online");
+        let (expect_seq, ack_field) = ((o.ack + 1) % 1024, o.sequence);
+        let fctl = if v7 { wire::F7_CONTROL } else { wire::F6_CONTROL };
+        let bodies: Vec<(&str, u8, u8, Vec<u8>)> = vec![
+            ("keepalive", fctl, 0, vec![0]),
+            ("close", fctl, 0, b"\x04bye\0".to_vec()),
+            ("vital-chunk", 0, 1, wire::chunk(v7, b"payload!", Some((expect_seq, false)))),
+            ("connect", fctl, 0, if v7 { vec![1, 0x77, 0x66, 0x55, 0x44] } else { b"\x01TKEN\xff\xff\xff\xff".to_vec() }),
+        ];
+        // differences: one byte, two bytes, three bytes that cancel out under XOR, all bytes
+        // equal, every rearrangement of the agreed token's own bytes; thorough: every three-byte
+        // difference, every four-byte difference that cancels out under XOR or under addition
+        let mut deltas: Vec<u32> = Vec::new();
+        for pos in 0..4 {
+            for a in 1..=255u32 {
+                deltas.push(a << (8 * pos));
+            }
+        }
+        for (p, q) in [(0, 1), (0, 2), (0, 3), (1, 2), (1, 3), (2, 3)] {
+            for a in 1..=255u32 {
+                for b in 1..=255u32 {
+                    deltas.push(a << (8 * p) | b << (8 * q));
+                }
+            }
+        }
+        for skip in 0..4 {
+            let pos: Vec<u32> = (0..4).filter(|x| *x != skip).collect();
+            for a in 1..=255u32 {
+                for b in 1..=255u32 {
+                    if a != b {
+                        deltas.push(a << (8 * pos[0]) | b << (8 * pos[1]) | (a ^ b) << (8 * pos[2]));
+                    }
+                }
+            }
+        }
+        for a in 1..=255u32 {
+            deltas.push(a * 0x0101_0101);
+        }
+        let idx = [0usize, 1, 2, 3];
+        for a in idx {
+            for b in idx {
+                for c in idx {
+                    for d in idx {
+                        let x = [t[a], t[b], t[c], t[d]];
+                        deltas.push(u32::from_le_bytes(x) ^ u32::from_le_bytes(t));
+                    }
+                }
+            }
+        }
+        if thorough {
+            for skip in 0..4 {
+                let pos: Vec<u32> = (0..4).filter(|x| *x != skip).collect();
+                for x in 0..(1u32 << 24) {
+                    deltas.push((x & 0xff) << (8 * pos[0]) | ((x >> 8) & 0xff) << (8 * pos[1]) | (x >> 16) << (8 * pos[2]));
+                }
+            }
+            for x in 0..(1u32 << 24) {
+                let (a, b, c) = (x & 0xff, (x >> 8) & 0xff, x >> 16);
+                deltas.push(a | b << 8 | c << 16 | (a ^ b ^ c) << 24);
+                deltas.push(a | b << 8 | c << 16 | (0u32.wrapping_sub(a + b + c) & 0xff) << 24);
+            }
+        }
+        deltas.retain(|d| *d != 0);
+        deltas.sort_unstable();
+        deltas.dedup();
+        let tu = u32::from_le_bytes(t);
+        for (name, flags, n, payload) in &bodies {
+            let label = format!("token-values:{}:{}:{}", variant.name(), if side == 0 { "connecting" } else { "accepting" }, name);
+            let bad = deltas
+                .par_chunks(8192)
+                .map(|chunk| -> Option<(String, String, Value)> {
+                    let mut e = base.ep[side].vclone();
+                    let before = format!("{:?}", e.view(base.now));
+                    let mut cb = Cb::with_draws(base.now, RANDOM[side], base.draws[side]);
+                    let calls0 = cb.random_calls;
+                    let mut ev = Vec::new();
+                    let mut warn = Vec::new();
+                    for d in chunk {
+                        let x = (tu ^ d).to_le_bytes();
+                        let dg = if v7 { wire::build7(*flags, ack_field, *n, payload, x, false) } else { wire::build6(*flags, ack_field, *n, payload, Some(x), false) }.expect("fits");
+                        warn.clear();
+                        let r = vp_core::catch(|| e.feed(&mut cb, &dg, &mut ev, &mut warn));
+                        let extra = || json!({"family": "token values", "variant": variant.name(), "side": side, "agreed_token": vp_core::hex(&t), "token_in_datagram": vp_core::hex(&x), "datagram": vp_core::hex(&dg), "kind": name});
+                        if let Err(p) = r {
+                            return Some((format!("c03:{}", vp_core::panic_sig(&p)), format!("feeding a datagram with a wrong token panics: {}", p), extra()));
+                        }
+                        if !ev.is_empty() {
+                            return Some((format!("c03:event:Online:{}", name), format!("datagram with token {} instead of {} yields events {:?}", vp_core::hex(&x), vp_core::hex(&t), ev), extra()));
+                        }
+                        if !cb.out.is_empty() || !cb.all.is_empty() {
+                            return Some((format!("c03:reply:Online:{}", name), format!("datagram with token {} instead of {} triggers a reply", vp_core::hex(&x), vp_core::hex(&t)), extra()));
+                        }
+                        if cb.random_calls != calls0 {
+                            return Some((format!("c03:random:Online:{}", name), format!("datagram with token {} instead of {} makes the endpoint draw randomness", vp_core::hex(&x), vp_core::hex(&t)), extra()));
+                        }
+                    }
+                    let after = format!("{:?}", e.view(base.now));
+                    if after != before {
+                        let x = (tu ^ chunk[0]).to_le_bytes();
+                        return Some((format!("c03:state-change:Online:{}", name), format!("datagrams with wrong tokens (one of {} values starting at {}) change the state: {} -> {}", chunk.len(), vp_core::hex(&x), before, after), json!({"family": "token values", "variant": variant.name(), "side": side, "agreed_token": vp_core::hex(&t), "first_token_of_block": vp_core::hex(&x), "block": chunk.len(), "kind": name})));
+                    }
+                    None
+                })
+                .find_any(|x| x.is_some())
+                .flatten();
+            run.add_evals(deltas.len() as u64);
+            match bad {
+                None => run.class(&label, || json!({"wrong_tokens_fed": deltas.len()})),
+                Some((sig, detail, extra)) => {
+                    run.violation(&format!("{}:{}", variant.name(), sig), &detail, extra);
+                }
+            }
+        }
+    }
+}
+
 fn main() {
     let run = Run::new("C03", "model_checking");
     vp_net::maybe_replay(&run);
     reserved_tokens(&run);
+    token_sweep::<libtw2_net::connection::Connection>(&run, Variant::V6T);
+    token_sweep::<libtw2_net::connection7::Connection>(&run, Variant::V7);
     let mut outcomes = Vec::new();
     let mut cfgs: Vec<Cfg> = Vec::new();
     for v in [Variant::V6T, Variant::V7] {
@@ -131,7 +268,7 @@ fn main() {
     run.assume("the classification 'carries exactly the agreed token' is done by an independent parser (doc/packet*.md + the bundled C++ Huffman reference); datagrams it cannot classify (0.6 connectionless; compressed bodies the reference rejects) are not judged");
     run.assume("0.6 without token extension has no token to protect and is not part of this property");
     run.finish(
-        "explicit-state exploration of two real endpoints (0.6+token, 0.7); on every unique state and for each endpoint that has fixed a token, the whole foreign-datagram alphabet (every packet kind x wrong/absent tokens incl. all 32 single-bit flips, plain and compressed, every truncation and 5-value byte substitution of valid datagrams) is fed to a copy: no event, no outgoing datagram, no use of randomness, verif_view unchanged",
+        "explicit-state exploration of two real endpoints (0.6+token, 0.7); on every unique state and for each endpoint that has fixed a token, the whole foreign-datagram alphabet (every packet kind x wrong/absent tokens incl. all 32 single-bit flips, plain and compressed, every truncation and 5-value byte substitution of valid datagrams) is fed to a copy: no event, no outgoing datagram, no use of randomness, verif_view unchanged; plus a token-value sweep on both sides of an online pair: keep-alive / close / expected vital chunk / connect carrying the agreed token XOR d for every d with one or two non-zero bytes, three bytes that cancel out, four equal bytes, every rearrangement of the token's own bytes (thorough: every three-byte d and every four-byte d whose bytes cancel out under XOR or addition)",
         true,
     );
 }
